@@ -33,8 +33,8 @@ Theorem c10_escaped_text_stays_text : forall t rest c tm o cd b,
             = Some (mk_tk dataState rest c tm (rev (singles t) ++ o) cd b).
 Proof. exact text_roundtrip. Qed.
 
-(* THE LEXICAL HALF AS ONE THEOREM.  For EVERY stream a tree walker can produce (any element and attribute
-   names, any attribute values, any text, comments), every option set whose quote character is U+0022 or U+0027:
+(* THE LEXICAL HALF AS ONE THEOREM.  For EVERY stream a tree walker can produce (a doctype with a name and
+   quotable identifiers, any element and attribute names, any attribute values, any text, comments), every option set whose quote character is U+0022 or U+0027:
    whatever HTMLSerializer(sanitize=True) writes (model san_ser = Ser after San with the default lists) is read
    back by the WHATWG tokenizer S_tok, from the data state, as exactly the sanitized stream -- nothing is
    re-interpreted: no character of any text or attribute value opens or closes a tag ... *)
